@@ -44,6 +44,11 @@ def strip_model(m):
         # the document version is free text in the XML form; a number given as version is compared
         # by its text
         m["version"] = str(m["version"])
+    # likewise the uncertainty: the constructor keeps whatever it is given (the repository's own tests
+    # rely on free text such as '+-12' surviving), the XML form is text, so it is compared by its text
+    for _, n in model.walk(m):
+        if n["k"] == "prop" and n.get("uncertainty") is not None:
+            n["uncertainty"] = str(n["uncertainty"])
     return m
 
 
@@ -231,7 +236,10 @@ def run_case(case, ctx, sdir):
             return
         before = model.model_of(doc)
         exp = strip_model(before)
+        # three zones: every raw string fine -> must be written; some string unrepresentable even after
+        # trimming -> must raise; in between (only the trimmed-away part is unrepresentable) -> don't care
         representable = all(odml11.xml_representable(s) for s in all_strings(before))
+        unrepresentable = not all(odml11.xml_representable(s.strip()) for s in all_strings(before))
         rec.case(core.h(enc(no_ids(spec))), nontrivial(spec))
         rec.count("kind", kind)
         for entry, opt, mode in (case.get("configs") or CONFIGS):
@@ -245,18 +253,22 @@ def run_case(case, ctx, sdir):
                 if representable:
                     rec.violation("xml/writer-raised-on-representable:%s" % type(res[1]).__name__,
                                   "%s: writer raised %r for a representable document" % (cfg, res[1]), witness)
-                elif res[2]:
+                elif res[2] and entry != "odmlwriter-string" and entry != "xmlwriter-str":
                     rec.violation("xml/unrepresentable/file-left-behind",
                                   "%s: writer raised %r but a file exists" % (cfg, res[1]), witness)
                 continue
-            if not representable:
+            if not representable and not unrepresentable:
+                rec.outcome("representability-dont-care")
+                continue
+            if unrepresentable:
                 rec.violation("xml/unrepresentable/written",
                               "%s: document with text outside XML 1.0 was written without an exception" % cfg,
                               witness)
                 continue
             if res[0] == "read-raised":
                 rec.outcome("read-raised:%s" % type(res[1]).__name__)
-                rec.violation("xml/own-output-rejected:%s:%s:%s" % (mode, type(res[1]).__name__, suspect(spec)),
+                rec.violation("xml/tuple-element-with-syntax-char" if suspect(spec) != "other" else
+                              "xml/own-output-rejected:%s:%s" % (mode, type(res[1]).__name__),
                               "%s: reader raised %r on the library's own output" % (cfg, str(res[1])[:200]),
                               witness)
                 continue
@@ -400,7 +412,7 @@ def run(ctx):
     from vlib import env
     sdir = env.scratch()
     rec = ctx.rec
-    ndocs = ctx.pick(400, 20000)
+    ndocs = ctx.pick(1500, 30000)
     lat = lattice_cases()
     rec.extra["lattice_size"] = len(lat) if ctx.shard == 0 else 0
     # 1. value-shape lattice (complete in both tiers; string entry + save/load)
